@@ -31,7 +31,8 @@ def run_contract(contract, min_obligations=1, timeout_ms=None, max_paths=400, ax
       if any(f.key == r.name for f in out.failures):
         out.obligations += 1      # same obligation refuted on another path: reported once
         continue
-      out.fail(r.name, witness=r.model, detail=r.detail + ('\n' + r.smt2 if r.smt2 else ''), key=r.name)
+      # a refutation without a counter-model (normal-form back ends) still gets its clause's native replay: an empty witness, not None
+      out.fail(r.name, witness=r.model if r.model is not None else {}, detail=r.detail + ('\n' + r.smt2 if r.smt2 else ''), key=r.name)
     else:
       out.undec(r.name, r.detail)
   out.info['paths'] = en.paths
